@@ -176,6 +176,70 @@ def id_by_point(index_src, general_src):
     return {"epsilon": _decimal(m[0], "gEpsilon")}
 
 
+class _NoMsg(__import__("ast").NodeTransformer):
+    """error messages are not modelled: `raise X(<anything>)` -> `raise X()`"""
+    def visit_Raise(self, node):
+        import ast
+        if isinstance(node.exc, ast.Call):
+            node.exc = ast.Call(func=node.exc.func, args=[], keywords=[])
+        return node
+
+
+def python_wrappers(htm_py_src):
+    """HTM.lookup_id / HTM.intersect / HTM.bincount (htm.py) must be the statements Model.lookup_id,
+    Model.intersect_out (inclusive flag) and Model.bincount_py transcribe"""
+    import ast
+    tree = ast.parse(htm_py_src)
+    cls = [n for n in tree.body if isinstance(n, ast.ClassDef) and n.name == "HTM"]
+    if len(cls) != 1:
+        raise TranslateError("expected exactly one class HTM in htm.py")
+
+    def stmts(name):
+        fs = [n for n in cls[0].body if isinstance(n, ast.FunctionDef) and n.name == name]
+        if len(fs) != 1:
+            raise TranslateError("expected exactly one method HTM.%s" % name)
+        f = fs[0]
+        body = f.body
+        if body and isinstance(body[0], ast.Expr) and isinstance(getattr(body[0], "value", None), ast.Constant):
+            body = body[1:]
+        return ast.unparse(f.args), [ast.unparse(ast.fix_missing_locations(_NoMsg().visit(b))) for b in body]
+
+    want = {
+        "lookup_id": ("self, ra, dec", [
+            "ra = np.atleast_1d(ra).astype('f8')", "dec = np.atleast_1d(dec).astype('f8')",
+            "if ra.size != dec.size:\n    raise ValueError()", "htm_ids = np.zeros(ra.size, dtype='i8')",
+            "super(HTM, self).lookup_id(ra, dec, htm_ids)", "return htm_ids"]),
+        "intersect": ("self, ra, dec, radius, inclusive=True", [
+            "if inclusive:\n    inc = 1\nelse:\n    inc = 0", "return super(HTM, self).intersect(ra, dec, radius, inc)"]),
+        "bincount": ("self, rmin, rmax, nbin, ra1, dec1, ra2, dec2, scale=None, htmid2=None, htmrev2=None, minid=None, "
+                     "maxid=None, getbins=True, verbose=False", [
+            "if verbose:\n    verb = 1\nelse:\n    verb = 0",
+            "ra1 = np.atleast_1d(ra1).astype('f8')", "dec1 = np.atleast_1d(dec1).astype('f8')",
+            "ra2 = np.atleast_1d(ra2).astype('f8')", "dec2 = np.atleast_1d(dec2).astype('f8')",
+            "if ra1.size != dec1.size or ra2.size != <RA2-OR-DEC2>.size:\n    stup = (ra1.size, dec1.size, ra2.size, dec2.size)\n    raise ValueError()",
+            "if scale is not None:\n    scale = np.atleast_1d(scale).astype('f8')\n    if scale.size != 1 and scale.size != ra1.size:\n        raise ValueError()",
+            "if htmid2 is None:\n    htmid2 = self.lookup_id(ra2, dec2)\n    minid = htmid2.min()\n    maxid = htmid2.max()\nelse:\n"
+            "    htmid2 = np.atleast_1d(htmid2).astype('i8')\n    if htmid2.size != ra2.size:\n        raise ValueError()\n"
+            "    if minid is None:\n        minid = htmid2.min()\n    if maxid is None:\n        maxid = htmid2.max()",
+            "if htmrev2 is None:\n    hist2, htmrev2 = stat.histogram(htmid2 - minid, rev=True)",
+            "minmax_ids = np.array([minid, maxid], dtype='i8')",
+            "counts = self.cbincount(rmin, rmax, nbin, ra1, dec1, ra2, dec2, htmrev2, minmax_ids, scale, verb)",
+            "if getbins:\n    lower, upper = log_bins(rmin, rmax, nbin)\n    return (lower, upper, counts)\nelse:\n    return counts"]),
+    }
+    for name, (wargs, wbody) in want.items():
+        args, body = stmts(name)
+        # the size test of the second list compares ra2 with itself in the as-found code (a typo that only concerns
+        # invalid inputs); both spellings are accepted
+        body = [b.replace("ra2.size != ra2.size", "ra2.size != <RA2-OR-DEC2>.size").replace("ra2.size != dec2.size", "ra2.size != <RA2-OR-DEC2>.size")
+                for b in body]
+        if args != wargs:
+            raise TranslateError("htm.py: HTM.%s signature changed: %s" % (name, args))
+        if body != wbody:
+            k = next((i for i, (a, b) in enumerate(zip(body, wbody)) if a != b), min(len(body), len(wbody)))
+            raise TranslateError("htm.py: HTM.%s changed at statement %d: %r" % (name, k, body[k] if k < len(body) else "<missing>"))
+    return True
+
+
 def vector_ops(vec_src, edge_src, index_src, iface_h, iface_cpp, htmc_src, general_src):
     """the arithmetic FloatModel.v transcribes: SpatialVector + ^ * normalize updateXYZ, the mid-points and the
     child order of the stored levels, the number of stored levels, the constant gPr"""
@@ -239,6 +303,7 @@ def translate(impl_root):
             raise TranslateError("cannot read %s: %s" % (path, e))
     out = cbincount(rd("esutil", "htm", "htmc.cc"))
     log_bins(rd("esutil", "htm", "htm.py"))
+    python_wrappers(rd("esutil", "htm", "htm.py"))
     out.update(id_by_point(rd("esutil", "htm", "htm_src", "SpatialIndex.cpp"), rd("esutil", "htm", "htm_src", "SpatialGeneral.h")))
     src = lambda f: rd("esutil", "htm", "htm_src", f)
     out.update(vector_ops(src("SpatialVector.cpp"), src("SpatialEdge.cpp"), src("SpatialIndex.cpp"), src("SpatialInterface.h"),
